@@ -24,12 +24,20 @@ def load_macros(ctx):
     return [(m["name"], m["def"]) for m in o["extensions"]], o["table"]
 
 
-def run_expand(ctx, texts, reps, shuffles, table=None, tag="t"):
+def run_expand(ctx, texts, reps, shuffles, table=None, tag="t", pre=None):
     args = ["expand", str(reps), str(shuffles), str(ctx.seed)]
     if table is not None:
         path = os.path.join(ctx.work, "table_%s.json" % tag)
         with open(path, "w") as f:
             json.dump([{"name": n, "def": d} for n, d in table], f)
+        args.append(path)
+    elif pre is not None:
+        args.append("-")
+    if pre is not None:
+        # an earlier table of the same process with the same names and other definitions
+        path = os.path.join(ctx.work, "pretable_%s.json" % tag)
+        with open(path, "w") as f:
+            json.dump([{"name": n, "def": d} for n, d in pre], f)
         args.append(path)
     inp = "".join(json.dumps(t) + "\n" for t in texts)
     rc, out = ctx.vh("vh-kfltext", args, inp=inp, timeout=1200)
